@@ -215,6 +215,9 @@ func harnessDir() string {
 	if d := os.Getenv("VERIF_HARNESS_DIR"); d != "" {
 		return d
 	}
+	if d := os.Getenv("VERIF_DIR"); d != "" {
+		return filepath.Join(d, "harness")
+	}
 	return "/verif/harness"
 }
 
